@@ -19,14 +19,42 @@ def mon_alive_or_sigterm(sess, sc):
     return bad
 
 
+def mon_heap_steady(sess, sc):
+    """the same request repeated many times on a settled daemon: the heap in use (mallinfo, sampled at every poll) after the
+    24th repetition must not exceed the one after the 12th (testing only: allocator noise is avoided by comparing identical work)"""
+    rep = sc.tags.get("repeat")
+    if not rep or not sess.alive_after_script or sess.overrun or sess.wedged:
+        return []
+    k, line, n = rep
+    # rounds at which client k's output ended with a prompt, in order: take the memory sample of the following poll
+    marks, seen = [], 0
+    out = b""
+    for (rnd, now, tmo, interest, devs, vfds, kids, mem), r in zip(sess.timeouts, sess.rounds):
+        for l in r.lines:
+            w = l.split()
+            if w[0] == "WR" and w[1] == "c%d" % k and len(w) > 2 and w[2] != "-":
+                out += bytes.fromhex(w[2])
+        c = out.count(b"powerman> ")
+        if c > seen and mem is not None:
+            marks += [mem] * (c - seen); seen = c
+    if len(marks) < n:
+        return []
+    tail = marks[-n:]
+    a, b = tail[n // 2 - 1], tail[n - 1]
+    if b > a:
+        return [("heap", "grows-per-request", "`%s` repeated %d times: heap in use after repetition %d = %d bytes, after repetition %d = %d bytes" % (line, n, n // 2, a, n, b))]
+    return []
+
+
 pmcheck.MONITORS["alive-or-sigterm"] = mon_alive_or_sigterm
+pmcheck.MONITORS["heap-steady"] = mon_heap_steady
 
 
 def run(ctx, V):
     proofs_ok = vlib.proof_gate(ctx, V, extract=["Extract/ExDaemon.vo", "Extract/ExEnqueue.vo"])
     exe = pmsim.build(ctx)
     n = 400 if ctx.tier == "quick" else 8000
-    C04.rsim(ctx, V, exe, n, styles=("faults", "mixed", "healthy", "faults"), prefix="c20", monitors=("alive-or-sigterm", "c20"), gen=gen)
+    C04.rsim(ctx, V, exe, n, styles=("faults", "mixed", "healthy", "faults"), prefix="c20", monitors=("alive-or-sigterm", "c20", "heap-steady"), gen=gen)
 
 
 def gen(rng, style="mixed"):
@@ -56,6 +84,17 @@ def gen(rng, style="mixed"):
     if rng.random() < 0.3:
         S.insert(rng.randint(0, len(S)), ("raw", ["SIG TERM"])); sc.tags["sigterm"] = True
     pmcheck.renumber(sc)
+    if rng.random() < 0.35 and not sc.tags.get("sigterm"):
+        # steady state: one more client repeats the same request 24 times
+        k = sc.tags["ncli"]; sc.tags["ncli"] = k + 1
+        nodes = sc.cfg.all_nodes()
+        n0 = rng.choice(nodes)
+        line = rng.choice(["status", "status %s,%s" % (n0, n0), "on %s" % n0, "status %s" % n0, "temp", "device", "nodes", "cycle %s,%s" % (n0, rng.choice(nodes))])
+        S += [("connect",), ("wait", k)]
+        for _ in range(24):
+            S += [("send", k, (line + "\r\n").encode()), ("wait", k)]
+        sc.tags["repeat"] = (k, line, 24)
+        sc.env["PMSIM_MEM"] = "1"
     if rng.random() < 0.5:
         sc.env["PMSIM_STUBBORN"] = "1"      # coprocess helpers that ignore SIGTERM and exit only on EOF of their socket
     return sc
